@@ -200,6 +200,13 @@ __attribute__((noinline)) void run_ops(long id, const char *rname, const char *u
         ModOp<U, R>::run(la, lb);
         VF_CMP("==", qa == qb, la == lb); VF_CMP("!=", qa != qb, la != lb); VF_CMP("<", qa < qb, la < lb);
         VF_CMP("<=", qa <= qb, la <= lb); VF_CMP(">", qa > qb, la > lb); VF_CMP(">=", qa >= qb, la >= lb);
+        // QuantityPoint of the same unit and rep: the six comparisons are the raw comparisons of the stored values
+        // (the affine operators narrow back into the rep by design and are judged by C09, not here)
+        {
+            auto pa = au::make_quantity_point<U>(la), pb = au::make_quantity_point<U>(lb);
+            VF_CMP("pt==", pa == pb, la == lb); VF_CMP("pt!=", pa != pb, la != lb); VF_CMP("pt<", pa < pb, la < lb);
+            VF_CMP("pt<=", pa <= pb, la <= lb); VF_CMP("pt>", pa > pb, la > lb); VF_CMP("pt>=", pa >= pb, la >= lb);
+        }
         // compound assignment (the raw compound operators convert back to R exactly like the wrapper must)
         if (!RawUB<R>::add(a, b)) { auto q = qa; R r = la; r += lb; VF_CMP("+=", (q += qb, q.in(U{})), r); }
         if (!RawUB<R>::sub(a, b)) { auto q = qa; R r = la; r -= lb; VF_CMP("-=", (q -= qb, q.in(U{})), r); }
